@@ -90,7 +90,7 @@ class C19(Lab):
         "robotpy_ext.misc.periodic_filter.time is replaced by a harness clock (the 'substituted monotonic clock' of the statement)",
         "watchdog state before the first reset/enable/setTimeout is not judged (the class is documented as initialised disabled)",
     )
-    budgets = {"quick": 8000, "thorough": 400000}
+    budgets = {"quick": 12000, "thorough": 400000}
     time_budget = {"quick": 80, "thorough": 1500}
 
     def setup(self):
